@@ -234,6 +234,9 @@ def run(ctx):
             paths.append(p)
         ctx.log(f"correspondence: {sum(len(b) for b, _ in files)} cases in {len(paths)} files ...")
         res = ctx.coqc_many(paths, jobs=16, timeout=1500)
+        for pth in paths:                      # a transient failure (static tree rebuilt meanwhile, machine overloaded): once more
+            if res[pth][0] != 0:
+                res[pth] = ctx.coqc(pth, timeout=1500)
         ncase = 0
         for p, (body, recs) in zip(paths, files):
             rc, out = res[p]
